@@ -107,19 +107,32 @@ Section Query.
     - apply mem_obj_true. exists x. auto.
   Qed.
 
+  Lemma AllReg_sub L L' r : (forall x, In x L' -> In x L) -> AllReg L r -> AllReg L' r.
+  Proof. intros Hs Ha x Hx. apply Ha. auto. Qed.
+
   Lemma step_AllReg s o : Inv s -> adm s o = true -> is_clear o = false ->
     AllReg (live s) (g s) -> AllReg (live (fst (step s o))) (g (fst (step s o))).
   Proof.
-    intros HI Ha Hc HA. destruct HI as [A B C D]. destruct o as [c p i|x| |T|T|T|k|a f b ia ib|]; simpl in *; try discriminate.
+    intros HI Ha Hc HA. destruct HI as [A B C D].
+    destruct o as [c p i|x| |T|T|T|k|k|n y|n|a f b ia ib|]; simpl in *; try discriminate.
     - intros y Hy. apply in_app_iff in Hy. destruct Hy as [Hy|[<-|[]]].
       + destruct (HA _ Hy) as [w [Hw E]]. exists w. unfold add_node; simpl. rewrite in_app_iff. auto.
       + exists (W (next s) c p i). unfold add_node; simpl. rewrite in_app_iff. simpl. auto.
-    - destruct (pinned (vars s) x); simpl; auto. intros y Hy. apply filter_In in Hy. apply HA. tauto.
+    - destruct (pinned (evals s) x); simpl; auto. intros y Hy. apply filter_In in Hy. apply HA. tauto.
     - now apply AllReg_sweep.
     - now apply AllReg_sweep.
     - now apply AllReg_sweep.
     - exact HA.
-    - destruct (nth_error (vars s) k) as [[T [| |l]]|]; simpl; auto; now apply AllReg_sweep.
+    - destruct (nth_error (vars s) k); simpl; auto; now apply AllReg_sweep.
+    - destruct (nth_error (vars s) k); simpl; auto.
+    - destruct (nth_error (evals s) n) as [[e|]|]; simpl; auto.
+      destruct (e_stale e); simpl; auto.
+      set (r := if e_started e then g s else sweep (live s) (g s)).
+      assert (Hr : AllReg (live s) r) by (unfold r; destruct (e_started e); auto; now apply AllReg_sweep).
+      destruct (pull (live s) r _) as [[[v cur] cs]|]; simpl; auto.
+      eapply AllReg_sub; [|exact Hr]. unfold release. intros z Hz. apply filter_In in Hz. tauto.
+    - destruct (nth_error (evals s) n); simpl; auto.
+      eapply AllReg_sub; [|exact HA]. unfold release. intros z Hz. apply filter_In in Hz. tauto.
     - destruct (relate_spec (live s) (g s) a f b ia ib A B Ha) as [r' [nw [E [Hr' [_ Hm]]]]].
       rewrite E. simpl. intros y Hy. destruct (HA _ Hy) as [w [Hw Ew]]. exists w. split; auto.
   Qed.
@@ -136,12 +149,17 @@ Section Query.
   Qed.
 
   (* ---------------------------------------------------------------- the property over histories *)
-  Definition is_query (o : op) (T : cls) : Prop := o = QueryG T \/ o = QueryE T.
+  (* a complete evaluation over type T: at registry level, declared-and-evaluated at once, or ANY evaluation -- the first
+     or a later one -- of a query object declared earlier *)
+  Definition evaluates (s : st) (q : op) (T : cls) : Prop :=
+    q = QueryG T \/ q = QueryE T \/ exists k, q = EvalV k /\ nth_error (vars s) k = Some T.
 
-  (* for every history of creation / dropping / sweeping / queries / relation assertions, with any admissible
-     addresses and node indices, a fresh query for T returns the existing instances of T and its subclasses, each once *)
+  (* for every history of creation / dropping / sweeping / declarations / complete and partial evaluations / relation
+     assertions, with any admissible addresses and node indices: a complete evaluation over T returns the existing instances
+     of T and its subclasses, each once -- whatever happened since the query object was declared or evaluated before *)
   Theorem query_correct h q T :
-    adm_run init h = true -> no_clear h = true -> desc_b children fuel T T = false -> is_query q T ->
+    adm_run init h = true -> no_clear h = true -> desc_b children fuel T T = false ->
+    evaluates (fst (run init h)) q T ->
     exists l, snd (step (fst (run init h)) q) = OInst l /\
               Permutation l (map Some (spec_query children fuel (live (fst (run init h))) T)).
   Proof.
@@ -153,62 +171,11 @@ Section Query.
     assert (P : Permutation (instances (live s) (sweep (live s) (g s)) T) (map Some (spec_query children fuel (live s) T))).
     { apply instances_perm; auto.
       + apply sweep_inv, HI. + apply HI. + apply sweep_swept. + apply AllReg_sweep; auto. apply HI. }
-    destruct Hq as [-> | ->].
+    assert (D : dedupo (instances (live s) (sweep (live s) (g s)) T) = instances (live s) (sweep (live s) (g s)) T).
+    { apply dedupo_NoDup_id. eapply once_each; eauto. apply HI. }
+    destruct Hq as [-> | [-> | [k [-> Hk]]]].
     - eexists. split; [reflexivity|exact P].
-    - eexists. split; [reflexivity|]. rewrite dedupo_NoDup_id; auto. eapply once_each; eauto. apply HI.
+    - eexists. split; [reflexivity|]. now rewrite D.
+    - eexists. split; [simpl; rewrite Hk; reflexivity|]. now rewrite D.
   Qed.
-
-  (* a variable declared earlier (let(T, None) called, query not evaluated) and evaluated only now: its range is decided
-     now -- whatever was created, dropped, swept or related between the declaration and this first evaluation *)
-  Theorem eval_correct h k T :
-    adm_run init h = true -> no_clear h = true -> desc_b children fuel T T = false ->
-    nth_error (vars (fst (run init h))) k = Some (T, VPending) ->
-    exists l, snd (step (fst (run init h)) (EvalV k)) = OInst l /\
-              Permutation l (map Some (spec_query children fuel (live (fst (run init h))) T)).
-  Proof.
-    intros Ha Hc Hac Hk.
-    assert (HI := reach_Inv children fuel h Ha).
-    assert (HA : AllReg (live (fst (run init h))) (g (fst (run init h)))).
-    { apply run_AllReg; auto; [exact (Inv_init children fuel)|intros x Hx; destruct Hx]. }
-    set (s := fst (run init h)) in *.
-    assert (P : Permutation (instances (live s) (sweep (live s) (g s)) T) (map Some (spec_query children fuel (live s) T))).
-    { apply instances_perm; auto.
-      + apply sweep_inv, HI. + apply HI. + apply sweep_swept. + apply AllReg_sweep; auto. apply HI. }
-    eexists. split.
-    - simpl. rewrite Hk. reflexivity.
-    - rewrite dedupo_NoDup_id; auto. eapply once_each; eauto. apply HI.
-  Qed.
-
-  (* ... and as long as no EQL query has cached a domain, the existing instances are exactly the referenced ones *)
-  Definition is_eql (o : op) : bool := match o with QueryE _ | DeclV _ => true | _ => false end.
-  Definition no_eql (h : list op) : bool := forallb (fun o => negb (is_eql o)) h.
-
-  Lemma map_filter_id x (l : list orec) :
-    map o_id (filter (fun r => negb (o_id r =? x)) l) = filter (fun y => negb (y =? x)) (map o_id l).
-  Proof.
-    induction l as [|a l IH]; simpl; auto. destruct (o_id a =? x); simpl; [exact IH|now rewrite IH].
-  Qed.
-
-  Lemma step_user s o : is_eql o = false -> vars s = [] -> map o_id (live s) = user s ->
-    vars (fst (step s o)) = [] /\ map o_id (live (fst (step s o))) = user (fst (step s o)).
-  Proof.
-    intros Hq Hv Hu. destruct o as [c p i|x| |T|T|T|k|a f b ia ib|]; simpl in *; try discriminate; auto.
-    - rewrite map_app, Hu. auto.
-    - rewrite Hv. simpl. split; auto. rewrite <- Hu. apply map_filter_id.
-    - rewrite Hv. destruct k; simpl; auto.
-    - destruct (relate _ _ _ _ _ _ _) as [r [nw|]]; simpl; auto.
-    - rewrite Hv. simpl. auto.
-  Qed.
-
-  Lemma run_user : forall h s, no_eql h = true -> vars s = [] -> map o_id (live s) = user s ->
-    map o_id (live (fst (run s h))) = user (fst (run s h)).
-  Proof.
-    induction h as [|o h IH]; simpl; intros s Hq Hv Hu; auto.
-    apply andb_true_iff in Hq. destruct Hq as [Hq Hq']. apply negb_true_iff in Hq.
-    destruct (step_user s o Hq Hv Hu) as [A B]. destruct (step s o) as [s1 x]. simpl in *.
-    specialize (IH s1 Hq' A B). destruct (run s1 h) as [s2 xs]. simpl in *. auto.
-  Qed.
-
-  Theorem live_is_user h : no_eql h = true -> map o_id (live (fst (run init h))) = user (fst (run init h)).
-  Proof. intros H. apply run_user; auto. Qed.
 End Query.
